@@ -678,7 +678,7 @@ CHILD = os.path.join(os.path.dirname(os.path.abspath(IC.__file__)), 'c15_inherit
 
 
 def inherit_sizes(ctx):
-    return [2, 4, 8, 16, 32] if ctx.quick else list(range(1, 33)) + [40, 48, 64]
+    return [2, 3, 4, 6, 8, 12, 16] if ctx.quick else list(range(1, 33)) + [40, 48, 64]
 
 
 def inherit_cfg(fam, sizes):
@@ -899,6 +899,25 @@ def guarded(fn, seconds):
         signal.signal(signal.SIGALRM, old)
 
 
+CONFIRMED_HANGS = [0]
+
+
+def guarded_confirmed(ctx, fn, seconds, reset=None):
+    """guarded(), but a wall-clock limit alone is no verdict on a loaded machine: a query that hits
+    it is run again with three times the limit; a real hang repeats.  After three confirmed hangs
+    in one run further ones are reported without the second attempt."""
+    k, v, dt = guarded(fn, seconds)
+    if k == 'hang' and CONFIRMED_HANGS[0] < 3:
+        if reset is not None:
+            reset()
+        k, v, dt = guarded(fn, 3 * seconds)
+        if k == 'hang':
+            CONFIRMED_HANGS[0] += 1
+        else:
+            ctx.count('slow', None, nontrivial=False, bucket='over %.0f s wall once, then %s in %.1f s' % (seconds, k, dt))
+    return k, v, dt
+
+
 def dominant_frame(e):
     """the jedi frame (file:function) that occurs most often in the traceback of a RecursionError"""
     import traceback
@@ -940,7 +959,7 @@ def e2e_one(ctx, counter, label, src, positions, cap, timeout, kind, path=None, 
                 return run_query(jedi.Script(src, **kw), q, line, col)
             how = "jedi.Script(source).%s(%d, %d)" % (q, line, col)
             case = {'label': label, 'source': src, 'query': q, 'line': line, 'column': col}
-            k, v, dt = guarded(go, timeout)
+            k, v, dt = guarded_confirmed(ctx, go, timeout, counter.reset)
             nonbuiltin = [n for key, n in counter.per_ctx.items() if key not in counter.generous]
             worst = max(nonbuiltin or [0])
             ctx.count('e2e', (src, q, line, col), nontrivial=counter.total > 0,
@@ -1030,7 +1049,8 @@ def stream_e2e(ctx, cap):
                 src = mk(n)
                 line, col = P.last_pos(src)
                 counter.reset()
-                k, v, dt = guarded(lambda: run_query(jedi.Script(src), 'infer', line, col), timeout)
+                k, v, dt = guarded_confirmed(ctx, lambda: run_query(jedi.Script(src), 'infer', line, col), timeout,
+                                             counter.reset)
                 work[n] = counter.total
                 contexts = max(1, len(counter.per_ctx))
                 ctx.count('scaling', (fam, n), nontrivial=True, bucket=fam,
@@ -1103,6 +1123,7 @@ def compare(ctx, cases, answers):
 
 def run(ctx):
     from translator import extract
+    CONFIRMED_HANGS[0] = 0
     reqs = []
     cases = []
     cap, factor = 300, 100
